@@ -51,6 +51,18 @@ func main() {
 		sliceExhaustive(count)
 	case "slice.replay":
 		sliceReplay(extra)
+	case "lib.dict":
+		libDict(seed, count)
+	case "lib.str":
+		n := 200
+		if len(extra) > 0 {
+			n = atoi(extra[0])
+		}
+		libStr(count, seed, n)
+	case "lib.buf":
+		libBuf(seed, count)
+	case "lib.frt":
+		libFrt(seed, count)
 	default:
 		fmt.Fprintln(os.Stderr, "unknown stream", stream)
 		os.Exit(2)
